@@ -29,6 +29,17 @@ func init() {
 		},
 		Run:    c01Run,
 		Floors: c01Floors,
+		Extra: func(m *Merged, tier string) map[string]interface{} {
+			k := 2
+			if tier == "thorough" {
+				k = 3
+			}
+			sub := []string{fmt.Sprintf("%s", "every boolean-core tree with <=2 internal nodes (not, and/or of arity 2-3, if) x every labelling of its leaf slots over {true, false, variable, (> var 0), (> 1 0)} x every true/false assignment")}
+			if k == 3 {
+				sub = append(sub, "trees with 3 internal nodes: every shape, labellings sampled as stated in 'rule'")
+			}
+			return map[string]interface{}{"exhaustive_subspaces": sub, "enumerated_shapes": len(shapesUpTo(k))}
+		},
 	})
 }
 
